@@ -338,18 +338,29 @@ class CaseTimeout(BaseException):
     pass
 
 
+STUCK = dict(hook=None)       # set by the driver: what to do when a call can neither finish nor be interrupted
+
+
 class time_limit:
     """wall-clock limit for one call into the implementation (main thread only)"""
     def __init__(self, seconds):
         self.seconds = seconds
+        self.fires = 0
 
     def __enter__(self):
         import signal
 
         def handler(signum, frame):
+            self.fires += 1
+            if self.fires > 40 and STUCK['hook']:
+                # 20 s after the limit the call is still running: the exception is being swallowed (a bare "except:" in the library) while
+                # the work goes on.  The process cannot be recovered: report the case and leave.
+                STUCK['hook']('the library call did not return within %ss and cannot be interrupted (the time-limit exception is swallowed '
+                              'by a bare except while the computation continues)' % self.seconds)
             raise CaseTimeout('no return within %ss' % self.seconds)
         self.old = signal.signal(signal.SIGALRM, handler)
-        signal.setitimer(signal.ITIMER_REAL, self.seconds)
+        # periodic: library code with a bare "except:" can swallow the exception once; the timer keeps firing until the call is left
+        signal.setitimer(signal.ITIMER_REAL, self.seconds, 0.5)
 
     def __exit__(self, *a):
         import signal
@@ -440,7 +451,10 @@ class Check:
     def _limit(self):
         return self.CASE_TIMEOUT if not self.hangs else min(self.CASE_TIMEOUT, 10)
 
+    current_case = None
+
     def safe_oracle(self, case):
+        self.current_case = case
         try:
             with time_limit(self._limit()):
                 return self.oracle(case)
@@ -467,6 +481,7 @@ class Check:
             return None
 
     def safe_impl(self, case):
+        self.current_case = case
         try:
             with time_limit(self._limit()):
                 return self.run_impl(case)
@@ -527,6 +542,24 @@ def _main(chk, prop, tier, args, rundir, t0):
         print('implementation snapshot: %s' % snap)
         print('oracle: %s' % (what or 'property holds on this input'))
         return 1 if what else 0
+
+    def stuck(what):
+        case = chk.current_case
+        rp = write_replay(prop, dict(property=prop, kind='failing-input', input=case, what=what, key='call-does-not-return', seed=args.seed, tier=tier))
+        try:
+            EVID.mkdir(exist_ok=True)
+            (EVID / ('%s.json' % prop)).write_text(json.dumps(dict(
+                property_id=prop, tier=tier, seed=args.seed, level='proof',
+                coverage=dict(obligations=1, discharged=0, checker_cmd='run aborted: a call into the implementation could not be interrupted',
+                              trusted_base=TRUSTED_BASE_COMMON + list(chk.TRUSTED), evaluations=0, distinct_nontrivial=0, rule=chk.RULE,
+                              samples=[dict(case=case)], oracle_failures=1, input_distribution=chk.stats),
+                assumptions=list(chk.ASSUMPTIONS), wall_s=round(time.time() - t0, 2), violations=1), indent=1, default=str))
+        except Exception:
+            pass
+        sys.stdout.write('VIOLATION property=%s replay=%s\n' % (prop, rp))
+        sys.stdout.flush()
+        os._exit(1)
+    STUCK['hook'] = stuck
 
     for old in REPLAYS.glob('%s-*.json' % prop):
         try:
